@@ -743,9 +743,6 @@ End Round.
 End Fmt.
 
 (** * the generic statements (hypotheses: 2 <= prec, and prec <= 64 resp. prec <= 63) *)
-Check e_rint_fb_exact.
-Check e_lrint_fb_exact.
-Check g_round_exact.
 
 (** * binary32 and binary64 *)
 Theorem e_rint_fb_exact_b32 :
@@ -782,11 +779,3 @@ Theorem e_lrint_fb_exact_b80 :
   forall (x : b80) z, spec_lrint 64 16384 pe80 64 x = Some z -> e_lrint_fb 64 16384 p80 pe80 x = Ok z.
 Proof. apply e_lrint_fb_exact; lia. Qed.
 
-Print Assumptions e_rint_fb_exact_b32.
-Print Assumptions e_rint_fb_exact_b64.
-Print Assumptions e_lrint_fb_exact_b32.
-Print Assumptions e_lrint_fb_exact_b64.
-Print Assumptions g_round_exact_b32.
-Print Assumptions g_round_exact_b64.
-Print Assumptions e_rint_fb_exact_b80.
-Print Assumptions e_lrint_fb_exact_b80.
